@@ -1,7 +1,7 @@
 #!/bin/sh
 # usage: mutpatch.sh <patch-file> <prop> [tier] [-R]  — run a check against a scratch copy of /repo with the patch applied
 P=$(realpath $1); PROP=$2; TIER=${3:-quick}
-D=$(mktemp -d /tmp/mutXXXX); cp -r /repo/simfile $D/
+D=$(mktemp -d /tmp/mutXXXX); cp -r /repo/simfile /repo/testdata $D/
 (cd $D && patch -p1 -s $4 < $P) || { echo "PATCH DID NOT APPLY"; rm -rf $D; exit 2; }
 (cd $D && /venv/bin/python -m pytest -q -p no:cacheprovider simfile 2>&1 | tail -1)
 VERIF_REPO=$D /verif/run.py $PROP --tier $TIER > $D/out.txt 2>&1; echo "exit=$?"
